@@ -274,6 +274,134 @@ int_workload!(ints_u8, u8, 5, false, "int_u8");
 int_workload!(ints_i16, i16, 12, true, "int_i16");
 int_workload!(ints_u32, u32, 40, false, "int_u32");
 
+
+// ------------------------------------------------------------------ ownership and out-of-range sections
+// (added after seeded changes C18_O / C03_O: a feature-gated body of a conversion that drops its
+// elements twice, a feature-gated Index impl that reads a neighbouring element instead of panicking)
+
+thread_local! {
+    static DROPS: std::cell::RefCell<Vec<u32>> = std::cell::RefCell::new(Vec::new());
+}
+/// a non-Copy element without heap memory: dropping it twice is counted, not a crash
+#[derive(Debug, PartialEq)]
+pub struct Tok(pub usize);
+impl Tok {
+    fn mint(n: usize) -> Vec<Tok> {
+        DROPS.with(|d| {
+            let mut d = d.borrow_mut();
+            d.clear();
+            d.resize(n, 0);
+        });
+        (0..n).map(Tok).collect()
+    }
+    fn counts() -> Vec<u32> {
+        DROPS.with(|d| d.borrow().clone())
+    }
+}
+impl Drop for Tok {
+    fn drop(&mut self) {
+        DROPS.with(|d| {
+            if let Some(c) = d.borrow_mut().get_mut(self.0) {
+                *c += 1;
+            }
+        });
+    }
+}
+impl Default for Tok {
+    fn default() -> Self {
+        Tok(usize::MAX)
+    }
+}
+
+pub fn ownership(s: &mut Sections) {
+    macro_rules! put { ($e:expr) => { { let r = std::panic::catch_unwind(std::panic::AssertUnwindSafe(|| format!("{:?}", $e))).ok(); s.put("own", r) } }; }
+    macro_rules! arr { ($n:expr) => {{ let v = Tok::mint($n); let a: [Tok; $n] = v.try_into().unwrap(); a }}; }
+    macro_rules! vec_kind {
+        ($V:ident, $n:expr) => {{
+            // array -> vector -> drop; -> array; -> iterator consumed from both ends with the rest dropped
+            put!({ let v = $V::<Tok>::from(arr!($n)); let ids: Vec<usize> = v.iter().map(|t| t.0).collect(); drop(v); (ids, Tok::counts()) });
+            put!({ let v = $V::<Tok>::from(arr!($n)); let a = v.into_array(); let ids: Vec<usize> = a.iter().map(|t| t.0).collect(); let mid = Tok::counts(); drop(a); (ids, mid, Tok::counts()) });
+            for f in 0..=$n {
+                for b in 0..=($n - f) {
+                    put!({
+                        let mut it = $V::<Tok>::from(arr!($n)).into_iter();
+                        let mut got = Vec::new();
+                        for _ in 0..f { got.push(it.next().map(|t| t.0)); }
+                        for _ in 0..b { got.push(it.next_back().map(|t| t.0)); }
+                        let l = it.len();
+                        let mid = Tok::counts();
+                        drop(it);
+                        (got, l, mid, Tok::counts())
+                    });
+                }
+            }
+            // a lent source longer than the vector: what is left in it afterwards
+            put!({ let mut src = Tok::mint($n + 2).into_iter(); let v: $V<Tok> = src.by_ref().collect(); let left: Vec<usize> = src.map(|t| t.0).collect(); let ids: Vec<usize> = v.iter().map(|t| t.0).collect(); drop(v); (ids, left, Tok::counts()) });
+            put!({ let v: $V<Tok> = Tok::mint($n - 1).into_iter().collect(); let ids: Vec<usize> = v.iter().map(|t| t.0).collect(); drop(v); (ids, Tok::counts()) });
+            put!({ let v = $V::<Tok>::from(arr!($n)).map(|t| { let id = t.0; std::mem::forget(t); Tok(id) }); let ids: Vec<usize> = v.iter().map(|t| t.0).collect(); drop(v); (ids, Tok::counts()) });
+            put!({ let v = $V::<Tok>::from(arr!($n)); let sl: Vec<usize> = v.as_slice().iter().map(|t| t.0).collect(); (sl, v.as_slice().len(), v.as_slice().as_ptr() as usize == &v as *const _ as usize) });
+        }};
+    }
+    vec_kind!(Vec2, 2);
+    vec_kind!(Vec3, 3);
+    vec_kind!(Vec4, 4);
+    vec_kind!(Extent2, 2);
+    vec_kind!(Extent3, 3);
+    put!({ let t: (Tok, Tok, Tok) = Vec3::<Tok>::from(arr!(3)).into_tuple(); let ids = (t.0 .0, t.1 .0, t.2 .0); drop(t); (ids, Tok::counts()) });
+    put!({ let a = arr!(4); let [p, q, r, w] = a; let v = Vec4::<Tok>::from((p, q, r, w)); let ids: Vec<usize> = v.iter().map(|t| t.0).collect(); drop(v); (ids, Tok::counts()) });
+    macro_rules! mat_kind {
+        ($M:ty, $n:expr) => {{
+            put!({ let m = <$M>::from_row_array(arr!($n * $n)); let a = m.into_row_array(); let ids: Vec<usize> = a.iter().map(|t| t.0).collect(); let mid = Tok::counts(); drop(a); (ids, mid, Tok::counts()) });
+            put!({ let m = <$M>::from_col_array(arr!($n * $n)); let a = m.into_row_array(); let ids: Vec<usize> = a.iter().map(|t| t.0).collect(); let mid = Tok::counts(); drop(a); (ids, mid, Tok::counts()) });
+            put!({ let m = <$M>::from_row_array(arr!($n * $n)); let a = m.into_col_arrays(); let ids: Vec<Vec<usize>> = a.iter().map(|r| r.iter().map(|t| t.0).collect()).collect(); drop(a); (ids, Tok::counts()) });
+            put!({ let m = <$M>::from_col_array(arr!($n * $n)); let a = m.into_row_arrays(); let ids: Vec<Vec<usize>> = a.iter().map(|r| r.iter().map(|t| t.0).collect()).collect(); drop(a); (ids, Tok::counts()) });
+            put!({ let m = <$M>::from_row_array(arr!($n * $n)); let t = m.transposed(); let a = t.into_row_array(); let ids: Vec<usize> = a.iter().map(|t| t.0).collect(); drop(a); (ids, Tok::counts()) });
+            put!({ let m = <$M>::from_row_array(arr!($n * $n)); drop(m); Tok::counts() });
+        }};
+    }
+    mat_kind!(rm::Mat2<Tok>, 2);
+    mat_kind!(cm::Mat2<Tok>, 2);
+    mat_kind!(rm::Mat3<Tok>, 3);
+    mat_kind!(cm::Mat3<Tok>, 3);
+    mat_kind!(rm::Mat4<Tok>, 4);
+    mat_kind!(cm::Mat4<Tok>, 4);
+}
+
+pub fn out_of_range(s: &mut Sections) {
+    macro_rules! put { ($e:expr) => { { let r = std::panic::catch_unwind(std::panic::AssertUnwindSafe(|| format!("{:?}", $e))).ok(); s.put("oob", r) } }; }
+    macro_rules! mat_kind {
+        ($M:ty, $n:expr) => {{
+            let mut k = 0i32;
+            let m = <$M>::identity().map(|_| { k += 1; k });
+            for i in 0..($n + 3) {
+                for j in 0..($n + 3) {
+                    put!(m[(i, j)]);
+                    put!({ let mut w = m; w[(i, j)] = -7; w });
+                }
+            }
+        }};
+    }
+    mat_kind!(rm::Mat2<i32>, 2);
+    mat_kind!(cm::Mat2<i32>, 2);
+    mat_kind!(rm::Mat3<i32>, 3);
+    mat_kind!(cm::Mat3<i32>, 3);
+    mat_kind!(rm::Mat4<i32>, 4);
+    mat_kind!(cm::Mat4<i32>, 4);
+    let v4 = Vec4::new(1i32, 2, 3, 4);
+    let v3 = Vec3::new(1i32, 2, 3);
+    let v2 = Vec2::new(1i32, 2);
+    for i in 0..7usize {
+        put!(v4[i]); put!(v3[i]); put!(v2[i]); put!(v4.as_slice().get(i)); put!(v3.get(i)); put!(Extent3::new(5i32, 6, 7)[i]);
+        put!({ let mut w = v4; w[i] = 9; w });
+    }
+    for mask in [0usize, 1, 3, 4, 5, 27, 255, 256, usize::MAX] {
+        put!(v4.shuffled(mask));
+    }
+    for idx in [(0usize, 1usize, 2usize, 3usize), (4, 5, 6, 7), (3, 3, 9, 1), (usize::MAX, 0, 0, 0)] {
+        put!(v4.shuffled(idx)); put!(Vec4::shuffle_lo_hi(v4, v4 * 10, idx));
+    }
+}
+
 pub fn run(seed: u64, iters: usize) -> Sections {
     let mut s = Sections(BTreeMap::new(), 0);
     let mut rng = Rng::new(seed);
@@ -284,5 +412,7 @@ pub fn run(seed: u64, iters: usize) -> Sections {
     ints_u8(&mut s, &mut rng, iters);
     ints_i16(&mut s, &mut rng, iters);
     ints_u32(&mut s, &mut rng, iters);
+    ownership(&mut s);
+    out_of_range(&mut s);
     s
 }
